@@ -1,5 +1,5 @@
 PROP = {
-    "thm": ["Umya.Thm.C19", "Umya.Thm.C19Gen", "Umya.Thm.C19Dispatch", "Umya.Thm.C19Regex"],
+    "thm": ["Umya.Thm.C19", "Umya.Thm.C19Gen", "Umya.Thm.C19Dispatch", "Umya.Thm.C19Regex", "Umya.Thm.C19Cell"],
     "harness": "c19",
     "level": "proof",
     "stateful": False,
@@ -27,7 +27,19 @@ PROP = {
                   "-0, halves, 1e-7, 5e-324, 1e20, 1e300, f64::MAX, 2^64 edge, rounding boundaries, long fractions, calendar edges), the "
                   "FULL text compared (class only where the fraction formatter prints floats). "
                   "Beyond the table: a format code that is one quoted literal (\"N/A\") panicked (parse::<f64>().unwrap()); repaired by "
-                  "fix_3, witness C19_quoted_literal_code_shown replayed on every run.",
+                  "fix_3, witness C19_quoted_literal_code_shown replayed on every run. "
+                  "The cell-level decision (Cell::get_formatted_value) is modelled statement by statement over all seven kinds of "
+                  "CellRawValue, with or without a formula (Model/NumFmtCell.lean: Display, get_number, get_data_type, get_data_type_crate, "
+                  "get_value, get_value_number, getFormattedValue with an optional format code): C19_cell_text_unchanged — every raw value "
+                  "that is not Numeric shows get_value() unchanged under EVERY code and under none (string, rich text, text result under a "
+                  "formula: their text; bool: TRUE / FALSE; error: its #-text; empty: the empty string; an unresolved set_value_lazy value: "
+                  "the EMPTY string, its stored text is not shown); C19_cell_number_general — a Numeric cell whose text is a shortest decimal "
+                  "text shows it under General, @ and no format; C19_cell_dispatch — to_formatted_string is reached exactly by Numeric raw "
+                  "values (iff get_data_type_crate = n), formula or not; C19_cell_datatype_matches_source — the model's two data-type "
+                  "functions equal the ones compiled from the current source; C19_cell_formatted_value_matches_source — Cell::get_formatted_value "
+                  "itself, compiled from the current source by extract_fns.py (inputs: what get_value(), get_value_number(), the style's format code "
+                  "return, and to_formatted_string as a function), instantiated with the model's functions IS getFormattedValue. Tied by the cellk stream (every kind x formula x 9 codes incl. "
+                  "none; a part through a saved workbook read back with lazy_read).",
     "level_note": "Trusted: Lean kernel + 3 standard axioms; the hand model's faithfulness as exercised by the correspondence stream; "
                   "Rust f64 FromStr/Display (shortest, positional, round trip; identity on decimal texts of <= 15 significant digits); "
                   "the hand-written matchers that stand for the fancy_regex patterns of the dispatcher, chrono's strftime on the specifiers "
@@ -39,7 +51,8 @@ PROP = {
                         "C19_builtin_ids", "C19_builtin_plans_ok", "C19_builtin_no_panic", "C19_fraction_no_panic",
                         "C19_scientific_no_panic", "C19_accounting_no_panic", "C19_accounting44_no_panic", "C19_text_no_panic",
                         "C19_dispatch_matches_fixed", "C19_dispatch_date_ids", "C19_dispatch_date_agrees",
-                        "C19_quoted_literal_code_shown", "C19_custom_code_panics"],
+                        "C19_quoted_literal_code_shown", "C19_custom_code_panics",
+                        "C19_cell_text_unchanged", "C19_cell_number_general", "C19_cell_dispatch", "C19_cell_datatype_matches_source", "C19_cell_formatted_value_matches_source"],
     "rule": "boundary values (the five witnesses of DESIGN section 4 row 17, halves, carries through nines, values rounding to zero, "
             "negative zero, 15-digit values, 1e-7..1e15) x all 28 patterns (0 / 0.0..0.000000, with and without #,##, with and "
             "without %) + General + @; 560 (quick) / 30000 (thorough) random decimal texts of 1..17 significant digits, magnitudes "
@@ -54,7 +67,10 @@ PROP = {
             "(DISP_VALUES: whole / negative whole / both zeros / halves / tiny / huge / the usize edge / rounding boundaries / long "
             "fractions / calendar edges, + 40 (quick) / 400 (thorough) random) with the double's bit pattern and the texts of abs % 1, "
             "* 24, abs * 24 (op disp: no panic; full text against the dispatcher model), 25 custom codes x 8 values (op dispc, exploration, "
-            "incl. the quoted-literal witness). non-trivial = the oracle was applicable (value and pattern inside the property's "
+            "incl. the quoted-literal witness); op cellk: every kind of CellRawValue (str / rich (two runs) / lazy / num / bool / err (all 8) / empty) "
+            "x with and without a formula x 9 codes (none, General, @, five numeric patterns, a date code) x 13 texts / 11 numbers, 150 (quick) / 2000 "
+            "(thorough) random values as number and as text kinds, and 5 codes x the kinds str / strf / rich / num / numf / bool / boolf / err / errf "
+            "taken from a workbook saved and read back with lazy_read (text, public data type and get_value_number().is_some() compared). non-trivial = the oracle was applicable (value and pattern inside the property's "
             "quantifier and the u128 reference did not overflow) or the cell returned a value; distinct = distinct request line",
     "trusted_base": TB_COMMON + [
         "Rust f64 Display prints every finite value positionally as -?D+(.D+)? in shortest round-trip form, and FromStr accepts the documented grammar; "
@@ -96,6 +112,14 @@ PROP = {
         "fixed-decimal and percentage patterns only",
         "to_formatted_string on numeric-looking strings that are not shortest forms (1.50, 1e5) normalises them; only the cell-level "
         "entry point (text cells, after fix_2) shows such text unchanged",
+        "cell kinds: Cell::get_formatted_value is tied to the source by translation (C19_cell_formatted_value_matches_source), as are get_data_type / "
+        "get_data_type_crate (C19_cell_datatype_matches_source); get_value_number / CellRawValue::get_number (a method on an enum with payloads: "
+        "extract_fns.py reports 'struct CellRawValue not found') and the two Display impls (write! bodies) are hand-modelled and tied by the cellk "
+        "stream only. Numeric cells "
+        "holding NaN / infinities and numbers of more than 15 significant digits under a pattern are outside the model (unmodelled). A value "
+        "stored with set_value_lazy and not resolved shows the empty string (proved and tied as it is, not judged); the reader never produces "
+        "Lazy values, so a lazily read workbook yields the ordinary kinds (tied for str / rich / num / bool / err, with and without formula; "
+        "rich text under a formula and empty cells are not sent through the saved workbook)",
     ],
     "technique": "Lean 4 proof over a digit-list model + arithmetic rounding spec + dispatcher model (decide over the regenerated built-in table, lemmas per formatter); differential tie + independent integer oracle",
     "timeout_quick": 600,
